@@ -130,7 +130,7 @@ F15_SIG = "F15:line-order-matters-when-split-and-trade-share-a-date"
 def compare_variant(base, var, oa, ob, cnt, vclass):
     """-> list of violations for one (base, variant) pair."""
     v = _compare_variant(base, var, oa, ob, cnt, vclass)
-    if v and f15_shape(base) and vclass.startswith("perm"):
+    if v and f15_shape(base) and (vclass.startswith("perm") or vclass.endswith("separated")):
         # The known defect lives in the 30-day look-ahead only: without any 30-day leg in either report a
         # disagreement has another cause and keeps its own signature.
         def has_bnb(o):
